@@ -93,6 +93,8 @@ inductive Expr where
   | mval (recv : Expr) (t : Ty) (name : String)          -- method value `x.M` (receiver bound now)
   | imval (recv : Expr) (name : String)                  -- method value of an interface value
   | structLit (fs : List Expr)
+  | blankF (e : Expr)                                 -- the value of a blank (`_`) struct field: ignored by ==
+  | zeroArr (n : Nat) (z : Expr)                      -- `[n]T{}`: n copies of the zero value z
   | arrLit (es : List Expr)
   | sliceLit (es : List Expr)
   | make (zero len : Expr) (cap : Option Expr)
@@ -210,6 +212,7 @@ inductive Val where
   | func (f : Option (FuncKind × Nat × Env × Nat))     -- kind, function / range-body id, captured environment, token (yield)
   | iface (d : Option (Ty × Val))
   | bound (f : Nat) (recv : Val)                       -- method value: function id with its receiver
+  | blank (v : Val)                                    -- content of a blank struct field
 deriving Repr, Inhabited
 
 /-- non-local completion of a statement -/
@@ -343,6 +346,7 @@ def Val.beq : Val → Val → Bool
   | .func none, .func none => true
   | .iface none, .iface none => true
   | .iface (some (t, v)), .iface (some (t', v')) => t = t' && Val.beq v v'
+  | .blank _, .blank _ => true                       -- blank fields do not take part in comparisons
   | _, _ => false
 def Val.beqList : List Val → List Val → Bool
   | [], [] => true
@@ -962,6 +966,12 @@ def stepExpr (e : Expr) (env : Env) : M Ret := do
   | .structLit fs => do
     let vs ← evalList env fs
     pure (.vals [.struct vs])
+  | .blankF e => do
+    let v ← eval1 e env
+    pure (.vals [.blank v])
+  | .zeroArr n z => do
+    let v ← eval1 z env
+    pure (.vals [.arr (List.replicate n v)])
   | .arrLit es => do
     let vs ← evalList env es
     pure (.vals [.arr vs])
